@@ -10,7 +10,10 @@ use text_utils::unicode::CharString;
 use text_utils::windows::{byte, char, windows, Window, WindowConfig};
 use vh::*;
 
-struct C16;
+struct C16 {
+    /// this binary panics on integer overflow (debug profile) / wraps (release profile)
+    checked: bool,
+}
 
 const ONE: &[&str] = &["a", "b", "c", " "];
 const TWO: &[&str] = &["ä", "ß", "é"];
@@ -239,6 +242,66 @@ const HUGE: &[usize] = &[
     usize::MAX / 3,
 ];
 
+/// EXTREME stream: the values at which a 32- or 64-bit quantity (or a signed view of it) changes behaviour,
+/// for every numeric field, combined
+const EXT: &[usize] = &[
+    0,
+    1,
+    2,
+    3,
+    (1 << 31) - 1,
+    1 << 31,
+    (1 << 31) + 1,
+    (1 << 32) - 1,
+    1 << 32,
+    (1 << 32) + 1,
+    (1 << 63) - 1,
+    1 << 63,
+    (1 << 63) + 1,
+    usize::MAX - 1,
+    usize::MAX,
+];
+
+/// a context derived from an extreme maximum: around max/2 (the validity boundary) and around max
+fn ext_ctx_of(rng: &mut Rng, max: usize) -> usize {
+    match rng.below(7) {
+        0 => max / 2,
+        1 => max.wrapping_sub(1) / 2,
+        2 => (max / 2).wrapping_add(1),
+        3 => max.wrapping_sub(1),
+        4 => max,
+        5 => (max / 2).saturating_sub(1),
+        _ => max.wrapping_add(1),
+    }
+}
+
+/// a maximum derived from an extreme context: around 2*ctx (computed modulo 2^64, as a wrapped product
+/// would be) and around ctx
+fn ext_max_of(rng: &mut Rng, ctx: usize) -> usize {
+    match rng.below(8) {
+        0 => ctx.wrapping_mul(2),
+        1 => ctx.wrapping_mul(2).wrapping_add(1),
+        2 => ctx.wrapping_mul(2).wrapping_sub(1),
+        3 => ctx.saturating_mul(2),
+        4 => ctx,
+        5 => ctx.wrapping_add(1),
+        6 => ctx.wrapping_mul(2).wrapping_add(2),
+        _ => usize::MAX,
+    }
+}
+
+/// does this binary panic on integer overflow (cargo profile with overflow-checks) or wrap?
+fn overflow_checked() -> bool {
+    let a = std::hint::black_box(usize::MAX);
+    let b = std::hint::black_box(1usize);
+    let hook = std::panic::take_hook();
+    std::panic::set_hook(Box::new(|_| {}));
+    #[allow(arithmetic_overflow)]
+    let r = std::panic::catch_unwind(move || std::hint::black_box(a + b)).is_err();
+    std::panic::set_hook(hook);
+    r
+}
+
 fn fixed_char(len: usize) -> &'static str {
     match len {
         1 => "a",
@@ -399,6 +462,7 @@ impl Prop for C16 {
         let stream = rng.below(100);
         let mut s = text(rng);
         let (max, ctx);
+        let mut ext = false;
         if stream < 60 {
             // valid configuration, small windows
             let c = rng.below(7);
@@ -410,7 +474,39 @@ impl Prop for C16 {
             ctx = rng.below(7);
         } else {
             // edge stream
-            match rng.below(10) {
+            match rng.below(14) {
+                10 => {
+                    // EXTREME: both fields from the table
+                    max = *rng.pick(EXT);
+                    ctx = *rng.pick(EXT);
+                    ext = true;
+                }
+                11 => {
+                    // EXTREME maximum, context at its validity boundary
+                    max = *rng.pick(EXT);
+                    ctx = ext_ctx_of(rng, max);
+                    ext = true;
+                }
+                12 => {
+                    // EXTREME context, maximum around (wrapped) 2 * context
+                    ctx = *rng.pick(EXT);
+                    max = ext_max_of(rng, ctx);
+                    ext = true;
+                }
+                13 => {
+                    // EXTREME relative to the text: max - ctx around the number of characters / bytes (the
+                    // condition under which a second window exists), with the largest valid contexts
+                    let n = if rng.chance(1, 2) { CharString::new(&s, g).len() } else { s.len() };
+                    let d = (n + rng.below(3)).saturating_sub(1);
+                    ctx = match rng.below(4) {
+                        0 => d.saturating_sub(1),
+                        1 => d / 2,
+                        2 => *rng.pick(EXT),
+                        _ => rng.below(4),
+                    };
+                    max = ctx.saturating_add(d);
+                    ext = true;
+                }
                 0 => {
                     s = String::new();
                     max = rng.below(15);
@@ -474,6 +570,13 @@ impl Prop for C16 {
         let np = rng.below(4);
         let probes = (0..np)
             .map(|_| {
+                if ext && rng.chance(1, 2) {
+                    // extreme indices (numbers on the wire stay below 2^62)
+                    const PX: &[usize] = &[(1 << 31) - 1, 1 << 31, (1 << 32) - 1, 1 << 32, (1 << 32) + 1, (1 << 62) - 1];
+                    let a = if rng.chance(1, 2) { *rng.pick(PX) } else { rng.below(n + 3) };
+                    let b = if rng.chance(1, 4) { rng.below(n + 3) } else { *rng.pick(PX) };
+                    return (a, b);
+                }
                 let a = rng.below(n + 3);
                 let b = if rng.chance(1, 8) { rng.below(n + 3) } else { a + rng.below(n + 3 - a.min(n + 2)) };
                 (a, b)
@@ -524,6 +627,17 @@ impl Prop for C16 {
                 vec![(vi % (n + 1), n), (0, vi % (n + 2))]
             };
             push(&mut out, &|| input(2, 0, 0, &s, g, probes.clone()));
+            // EXTREME cross product: every pair of table values for both numeric fields, every entry point,
+            // on all texts of length <= 2 and two longer ones
+            if n <= 2 || vi == 100 || vi == 1000 {
+                for max in EXT {
+                    for ctx in EXT {
+                        for kind in [0usize, 1, 3, 4] {
+                            push(&mut out, &|| input(kind, *max, *ctx, &s, g, vec![]));
+                        }
+                    }
+                }
+            }
             for max in 0..=8 {
                 for ctx in 0..=3 {
                     let kinds: &[usize] = if v.is_empty() { &[0, 1, 3, 4] } else { &[0, 1] };
@@ -532,6 +646,19 @@ impl Prop for C16 {
                     }
                 }
             }
+        }
+        out
+    }
+
+    fn selfcheck(&mut self) -> Vec<String> {
+        // the tie of the two profiles of the machine model: the debug harness must trap overflow, the release one wrap
+        let mut out = vec![];
+        if cfg!(debug_assertions) != self.checked {
+            out.push(format!(
+                "SELFCHECK-FAIL overflow behaviour of this binary (checked = {}) does not match its cargo profile (debug = {})",
+                self.checked,
+                cfg!(debug_assertions)
+            ));
         }
         out
     }
@@ -691,6 +818,20 @@ impl Prop for C16 {
         if max >= 1 << 62 || ctx >= 1 << 62 {
             tags.push("huge".into());
         }
+        if EXT.contains(&max) && EXT.contains(&ctx) {
+            tags.push("ext-pair".into());
+        }
+        if max >= (1 << 31) - 1 || ctx >= (1 << 31) - 1 {
+            tags.push("ext".into());
+            // the product 2 * ctx does not fit into a usize: where the pinned code overflowed
+            if ctx > usize::MAX / 2 {
+                tags.push("ext-2ctx-overflows".into());
+            }
+            if max > ctx.saturating_mul(2) {
+                tags.push("ext-valid".into());
+            }
+        }
+        tags.push(if self.checked { "ovf:checked".into() } else { "ovf:wrapping".into() });
         let nwin = wres.nth(1).and_then(|w| w.as_l()).map(|w| w.len());
         match (wres.nth(0).and_then(|x| x.as_i()), wres.nth(1).and_then(|x| x.as_i())) {
             (Some(0), _) => {
@@ -735,5 +876,5 @@ impl Prop for C16 {
 }
 
 fn main() {
-    main_loop(C16);
+    main_loop(C16 { checked: overflow_checked() });
 }
